@@ -1,6 +1,7 @@
 import Cfi.Files
 import Spec.C12
 import Proofs.Accounting
+import Proofs.RegexLaw
 /-! C12 — property theorems: for EVERY content, EVERY block list (any begin/end
 patterns), text and binary storage. -/
 namespace Props.C12
@@ -103,6 +104,35 @@ theorem dispatch_first (nl : α) (blocks : List (BlockDef α)) (peek : List α) 
   rw [List.findIdx?_eq_some_iff_getElem] at h
   obtain ⟨hi, hm, hlt⟩ := h
   exact ⟨⟨hi, hm⟩, fun j hj hjl => by simpa using hlt j hj⟩
+
+/-- the pattern is found in the unit, declaratively: some infix of it (a prefix for an anchored
+pattern) is a word of the expression -/
+def Found (nl : α) (p : Pat α) (peek : List α) : Prop :=
+  ∃ a m b, peek = a ++ m ++ b ∧ Matches nl p.re m ∧ (p.anchored = true → a = [])
+
+/-- **Dispatch, in terms of the patterns' meaning** (`Cfi.Regex.search_iff`: the matcher of the model —
+derivatives, simplification, prefix match, search — decides exactly "some infix matches"): a region
+goes to the first declared block whose begin pattern is found in the peeked unit; no earlier
+declared block's begin pattern is found there -/
+theorem dispatch_first_found (nl : α) (blocks : List (BlockDef α)) (peek : List α) (i : Nat)
+    (h : blocks.findIdx? (fun b => search nl b.begin_ peek) = some i) :
+    (∃ hi : i < blocks.length, Found nl (blocks[i]).begin_ peek) ∧
+    ∀ j (hj : j < i) (hjl : j < blocks.length), ¬ Found nl (blocks[j]).begin_ peek := by
+  obtain ⟨⟨hi, hm⟩, hlt⟩ := dispatch_first nl blocks peek i h
+  refine ⟨⟨hi, (search_iff nl _ peek).1 hm⟩, fun j hj hjl hf => ?_⟩
+  have := hlt j hj hjl
+  rw [(search_iff nl _ peek).2 hf] at this
+  cases this
+
+/-- and a unit in which no declared begin pattern is found goes to no block (it becomes a default element) -/
+theorem dispatch_none_found (nl : α) (blocks : List (BlockDef α)) (peek : List α)
+    (h : blocks.findIdx? (fun b => search nl b.begin_ peek) = none) :
+    ∀ b ∈ blocks, ¬ Found nl b.begin_ peek := by
+  intro b hb hf
+  rw [List.findIdx?_eq_none_iff] at h
+  have := h b hb
+  rw [(search_iff nl _ peek).2 hf] at this
+  cases this
 
 /-- non-vacuity: an unterminated block at the end of the input, no final newline -/
 example :
